@@ -3,6 +3,7 @@ grammar (shape A)."""
 import collections
 import itertools
 import os
+import re
 import shutil
 import tempfile
 
@@ -266,17 +267,33 @@ SPECIAL = [
       "r.pg": "I: W | W W;\nterminals\nW: /[ab]/;\n"},
      'S: E+;\nE: l_I | r_I;\nl_I: l_W;\nr_I: r_W | r_W r_W;\nterminals\n'
      'l_W: /[ab]/;\nr_W: /[ab]/;\n', "ab", 4, "qualified"),
+    # options of Grammar.from_file reach the imported files as they reach a
+    # single file: regular expression flags, ignore_case
+    ("re-flags/regex-in-import",
+     {"root.pg": "import 'f1.pg';\nS: f1.St+ 'b';\n",
+      "f1.pg": "import 'f2.pg';\nSt: id | f2.K;\nterminals\nid: /a+/;\n",
+      "f2.pg": "K: k;\nterminals\nk: /c./;\n"},
+     "S: St+ 'b';\nSt: id | K;\nK: k;\nterminals\nid: /a+/;\nk: /c./;\n",
+     "aAbc\n", 4, {"re_flags": re.IGNORECASE | re.DOTALL | re.MULTILINE}),
+    ("ignore-case/strings-and-regex-in-import",
+     {"root.pg": "import 'f1.pg';\nS: f1.St+ 'b';\n",
+      "f1.pg": "St: id | 'ab';\nterminals\nid: /a+/;\n"},
+     "S: St+ 'b';\nSt: id | 'ab';\nterminals\nid: /a+/;\n",
+     "aAbB", 4, {"ignore_case": True}),
 ]
 
 
 def special_unit(u):
     name, files, ftext, alpha, nmax = SPECIAL[u["special"]][:5]
-    qual = len(SPECIAL[u["special"]]) > 5
+    qual = "qualified" in SPECIAL[u["special"]][5:]
+    gkw = next((x for x in SPECIAL[u["special"]][5:] if isinstance(x, dict)),
+               {})
     mon = Monitor()
     judge = Judge(PROP, KNOWN)
     st = collections.Counter()
     inputs = spaces.strings(alpha, nmax)
-    case = {"files": files, "flattened": ftext, "variant": name}
+    case = {"files": files, "flattened": ftext, "variant": name,
+            "grammar_options": {k: str(v) for k, v in gkw.items()}}
     d = tempfile.mkdtemp(prefix="pgmc-c20-")
     try:
         for nme, text in files.items():
@@ -286,8 +303,10 @@ def special_unit(u):
             for src in ("modular", "flat"):
                 try:
                     with quiet():
-                        g = Grammar.from_file(os.path.join(d, "root.pg")) \
-                            if src == "modular" else grammar_from_string(ftext)
+                        g = Grammar.from_file(os.path.join(d, "root.pg"),
+                                              **gkw) \
+                            if src == "modular" else \
+                            grammar_from_string(ftext, **gkw)
                     ps.append(build(kind, g, mon, tag=(name, src, kind)))
                 except BudgetExceeded:
                     ps.append("budget")
